@@ -10,10 +10,21 @@ from ..lean import lean_str, lean_string
 SRC = REPO / "src" / "datamodel_code_generator"
 
 
-def _table(mod: str) -> dict[str, str]:
-    m = importlib.import_module(mod)
-    t = m.escape_characters
-    return {chr(k): v for k, v in t.items()}
+def _table(mod: str) -> dict[str, str] | None:
+    """the module's `escape_characters` translate table as {char: replacement}; None when the module no longer has
+    such a table (the code changed shape: the Lean side then gets an EMPTY table and the flag `…Present = false`, so
+    that the table obligation `tableOK` fails instead of the translator throwing)"""
+    try:
+        m = importlib.import_module(mod)
+        t = m.escape_characters
+        out = {}
+        for k, v in t.items():
+            if not isinstance(v, str):  # a table that deletes / maps to code points is not the reviewed shape
+                return None
+            out[chr(k) if isinstance(k, int) else k] = v
+        return out
+    except Exception:  # noqa: BLE001
+        return None
 
 
 def _fstring_contexts(path, needle: str) -> list[tuple[str, str, str]]:
@@ -36,18 +47,61 @@ def _fstring_contexts(path, needle: str) -> list[tuple[str, str, str]]:
     return sorted(out)
 
 
+TABLE_MODULES = {
+    "enumTable": "datamodel_code_generator.parser.base",
+    "typedDictKeyTable": "datamodel_code_generator.model.typed_dict",
+}
+
+
+def tables_present() -> dict[str, bool]:
+    return {name: _table(mod) is not None for name, mod in TABLE_MODULES.items()}
+
+
 def tables() -> dict[str, dict[str, str]]:
-    return {
-        "enumTable": _table("datamodel_code_generator.parser.base"),
-        "typedDictKeyTable": _table("datamodel_code_generator.model.typed_dict"),
-    }
+    """absent table → {} (see `_table`)"""
+    return {name: (_table(mod) or {}) for name, mod in TABLE_MODULES.items()}
+
+
+def typed_dict_key_mechanism() -> tuple[str, bool]:
+    """How `model/typed_dict.py DataModelField.key` turns the wire name into the text between the template's single
+    quotes: (source of the returned expression, is it `<the name>.translate(escape_characters)` of THIS module's
+    table). Anything else — another escaping function, a second return, a missing property — is reported as it is and
+    is not the reviewed shape."""
+    try:
+        tree = ast.parse((SRC / "model" / "typed_dict.py").read_text())
+    except Exception as e:  # noqa: BLE001
+        return f"<unreadable: {type(e).__name__}>", False
+    cls = next((n for n in ast.walk(tree) if isinstance(n, ast.ClassDef) and n.name == "DataModelField"), None)
+    fn = next((n for n in (cls.body if cls else []) if isinstance(n, ast.FunctionDef) and n.name == "key"), None)
+    if fn is None:
+        return "<no DataModelField.key>", False
+    rets = [n.value for n in ast.walk(fn) if isinstance(n, ast.Return) and n.value is not None]
+    src = " | ".join(ast.unparse(r) for r in rets) or "<no return>"
+    if len(rets) != 1:
+        return src, False
+    r = rets[0]
+    ok = (
+        isinstance(r, ast.Call) and isinstance(r.func, ast.Attribute) and r.func.attr == "translate"
+        and isinstance(r.func.value, ast.Name) and len(r.args) == 1 and not r.keywords
+        and isinstance(r.args[0], ast.Name) and r.args[0].id == "escape_characters"
+    )
+    if ok:
+        # the translated value is the wire name: assigned once, from original_name / name only
+        var = r.func.value.id
+        assigns = [n for n in ast.walk(fn) if isinstance(n, ast.Assign) and any(isinstance(t, ast.Name) and t.id == var for t in n.targets)]
+        names = {a.attr for n in assigns for a in ast.walk(n.value) if isinstance(a, ast.Attribute)}
+        calls = [c for n in assigns for c in ast.walk(n.value) if isinstance(c, ast.Call)]
+        ok = len(assigns) == 1 and names <= {"name", "original_name"} and "original_name" in names and not calls
+    return src, ok
 
 
 def sites() -> dict[str, list[tuple[str, str, str]]]:
+    from ..guard import table  # a source file that is gone / unreadable: empty list (the `… ≠ []` obligations then fail)
+
     enum_sites = []
     for f in ("parser/jsonschema.py", "parser/graphql.py"):
-        enum_sites += _fstring_contexts(SRC / f, "translate(escape_characters)")
-    pattern_sites = _fstring_contexts(SRC / "model/pydantic/types.py", "pattern")
+        enum_sites += table(lambda f=f: _fstring_contexts(SRC / f, "translate(escape_characters)"), [])
+    pattern_sites = table(lambda: _fstring_contexts(SRC / "model/pydantic/types.py", "pattern"), [])
     return {"enumSites": enum_sites, "patternSites": pattern_sites}
 
 
@@ -55,7 +109,10 @@ def docstring_replaces() -> list[tuple[str, str]]:
     """The chain of `.replace(old, new)` calls that make up `model/base.py escape_docstring`, in the
     order they are applied (innermost call first). Anything else in that function → empty list (the
     Lean side then no longer recognises the function)."""
-    tree = ast.parse((SRC / "model" / "base.py").read_text())
+    try:
+        tree = ast.parse((SRC / "model" / "base.py").read_text())
+    except Exception:  # noqa: BLE001
+        return []
     for node in ast.walk(tree):
         if isinstance(node, ast.FunctionDef) and node.name == "escape_docstring":
             rets = [n for n in ast.walk(node) if isinstance(n, ast.Return)]
@@ -76,9 +133,17 @@ def docstring_replaces() -> list[tuple[str, str]]:
 
 def generate() -> str:
     out = ["namespace Dcg.Gen.EscTables", ""]
+    present = tables_present()
     for name, tab in tables().items():
-        rows = ",\n   ".join(f"(Char.ofNat {ord(k)}, {lean_str(v)})" for k, v in tab.items())
+        rows = ",\n   ".join(f"(Char.ofNat {ord(k)}, {lean_str(v)})" for k, v in tab.items() if len(k) == 1)
         out.append(f"def {name} : List (Char × List Char) :=\n  [{rows}]\n")
+        out.append(f"/-- the module has an `escape_characters` translate table (false: the table above is empty because there is none) -/\n"
+                   f"def {name}Present : Bool := {'true' if present[name] else 'false'}\n")
+    ksrc, kok = typed_dict_key_mechanism()
+    out.append("/-- `model/typed_dict.py DataModelField.key`: source of the returned expression, and whether it is\n"
+               "`<wire name>.translate(escape_characters)` with the module's own table (the reviewed shape) -/\n"
+               f"def typedDictKeySource : String := {lean_string(ksrc)}\n"
+               f"def typedDictKeyUsesTable : Bool := {'true' if kok else 'false'}\n")
     for name, ss in sites().items():
         rows = ",\n   ".join(f"({lean_string(a)}, {lean_string(b)}, {lean_string(c)})" for a, b, c in ss)
         out.append(
